@@ -180,6 +180,21 @@ class Span(typing.NamedTuple):
 class Country(typing.NamedTuple):
     code: str
     population: int
+# a structured class with a convenience method called items() (a view over one of its fields): still read by its FIELDS
+@dataclasses.dataclass
+class Inventory:
+    owner: str = "nobody"
+    stock: typing.Dict[str, int] = dataclasses.field(default_factory=dict)
+    def items(self):
+        return self.stock.items()
+    def keys(self):
+        return self.stock.keys()
+@dataclasses.dataclass
+class Ledger:
+    owner: str
+    entries: typing.Dict[str, str]
+    def items(self):
+        return self.entries.items()
 # annotated classes whose constructor collects (some of) the fields through **kwargs
 class KwItem:
     name: str
@@ -210,7 +225,9 @@ INHERIT_CASES = [("SChild", "SChild(7, 'n', ['a', 'b'], 'hello')"), ("DefChild",
                  ("Tag", "Tag('py', 'ok')"), ("Span", "Span((1, 2), 'ab')"), ("Span", "Span((1, 2), 'intro')"), ("Country", "Country('US', 331)"),
                  ("list[Country]", "[Country('FRA', 68), Country('DE', 84)]"), ("dict[str, Tag]", "{'k': Tag('ab', 'cd')}"), ("NBase", "NBase(1, 'b')"),
                  ("KwItem", "KwItem(name='1', tags=['null', '[1]'], note=None)"), ("KwTagged", "KwTagged('k', note='null', qty=2)"),
-                 ("list[KwItem]", "[KwItem(name='true', tags=['1'], note=None)]")]
+                 ("list[KwItem]", "[KwItem(name='true', tags=['1'], note=None)]"),
+                 ("Inventory", "Inventory('bob', {'nut': 3, 'bolt': 4})"), ("Ledger", "Ledger('bob', {'owner': 'eve', 'k': 'v'})"),
+                 ("typing.Optional[Inventory]", "Inventory('bob', {'nut': 3})"), ("list[Inventory]", "[Inventory('amy', {'bolt': 4})]")]
 
 
 def _inherit_child(case):
